@@ -266,8 +266,12 @@ def exec_op(world, env, op):
         if not avail(i):
             return ("OutSkip",)
         world.log = []
-        env[i].clear(reset_noise=V(reset))
-        return ("OutLog", ("Ok", True), list(world.log))
+        try:
+            env[i].clear(reset_noise=V(reset))
+            r = ("Ok", True)
+        except Exception as e:
+            r = ("Err", err_of(e))
+        return ("OutLog", r, list(world.log))
     raise ValueError(kind)
 
 
